@@ -162,7 +162,7 @@ def main() -> int:
         with Scratch("c05") as sc:
             for i in range(nsites):
                 rng = chk.subrng("site", i)
-                model = sites.gen_site(rng, sc.path, nfiles=14)
+                model = sites.gen_site(rng, sc.path, nfiles=14, gm_style=sites.GM_STYLES[i % 4])
                 if i % 2 == 0:
                     extra_names(rng, model)
                 root = sc.sub("root%d" % i)
